@@ -6,4 +6,4 @@ package account
 // The account cache hands out one accessor per address (loading it on first use): assumed.
 //@ func (*Manager).GetAccount   pure trusted
 //@   opt heap-independent
-//@   ensures result != nil
+//@   ensures result != nil && result.GetAddress() == address
